@@ -547,8 +547,17 @@ def run_check(P: Prop, tier: str, seed: int, replay: str | None = None) -> int:
     return 1 if violations else 0
 
 
-def search_failing_input(P: Prop, tier, seed, findings, budget_s=120):
-    """oracle-only search on the implementation with a fresh, larger sample"""
+_search_cache = {}
+
+
+def search_failing_input(P: Prop, tier, seed, findings, budget_s=90):
+    """oracle-only search on the implementation with a fresh, larger sample (once per run)"""
+    if P.id not in _search_cache:
+        _search_cache[P.id] = _search_failing_input(P, tier, seed, findings, budget_s)
+    return _search_cache[P.id]
+
+
+def _search_failing_input(P: Prop, tier, seed, findings, budget_s):
     rng = random.Random(seed + 7919)
     t0 = time.time()
     for c in P.generate("thorough", rng):
